@@ -18,6 +18,7 @@ CONSTANTS
   CountLive = TRUE
   LabelLive = TRUE
   PayloadLive = TRUE
+  FileIdFollowsHeader = TRUE
 VIEW noHist
 INVARIANT HistoryIndependent
 INVARIANT NoStaleCount
